@@ -253,11 +253,32 @@ func applyAlias(node *CandidateNode, alias *CandidateNode, aliasIndex int, newCo
 	if alias.Kind != MappingNode {
 		return fmt.Errorf("merge anchor only supports maps, got %v instead", alias.Tag)
 	}
+	if alias.exploding {
+		return fmt.Errorf("cannot explode a map that merges (<<) an anchor it is itself part of")
+	}
+	alias.exploding = true
+	defer func() { alias.exploding = false }()
 	for index := 0; index < len(alias.Content); index = index + 2 {
 		keyNode := alias.Content[index]
 		log.Debugf("applying alias key %v", keyNode.Value)
 		valueNode := alias.Content[index+1]
-		err := overrideEntry(node, keyNode, valueNode, aliasIndex, newContent)
+		if keyNode.Tag == "!!merge" {
+			// the anchored map merges other maps itself (it has not been exploded): their entries come along
+			var err error
+			if valueNode.Kind == SequenceNode {
+				for mergeIndex := len(valueNode.Content) - 1; mergeIndex >= 0 && err == nil; mergeIndex = mergeIndex - 1 {
+					err = applyAlias(node, valueNode.Content[mergeIndex].Alias, aliasIndex, newContent)
+				}
+			} else {
+				err = applyAlias(node, valueNode.Alias, aliasIndex, newContent)
+			}
+			if err != nil {
+				return err
+			}
+			continue
+		}
+		// the entries go into the exploded map as copies: the anchored map itself may lie outside of what is being exploded
+		err := overrideEntry(node, keyNode.Copy(), valueNode.Copy(), aliasIndex, newContent)
 		if err != nil {
 			return err
 		}
